@@ -63,6 +63,7 @@ int vf_close(int fd);
 #define fputs(s, f) ((void) 0)
 #define fputc(c, f) ((void) 0)
 #define strerror(e) ("")
+#define getenv(n) ((char *) 0)	/* ASSUME: TEST_IO_FLAGS / TEST_IO_BLOCK / E2FSPROGS_UNDO_DIR are not in the environment (no test_io wrapper) */
 #define main vf_real_main
 static errcode_t PRS(int argc, char *argv[], e2fsck_t *ret_ctx);	/* cut: defined below */
 #include "e2fsck/unix.c"
@@ -76,6 +77,7 @@ static errcode_t PRS(int argc, char *argv[], e2fsck_t *ret_ctx);	/* cut: defined
 #undef fputs
 #undef fputc
 #undef strerror
+#undef getenv
 
 #ifndef ERR
 #define ERR EXT2_ET_BAD_MAGIC
@@ -108,6 +110,8 @@ io_manager undo_io_manager = &vf_undo_mgr;
 static char vf_name[2] = "d", vf_prog[2] = "e", vf_undo[2] = "u";
 
 static int vf_nopens, vf_nopens_rw, vf_nopens_excl, vf_ended;
+static io_manager vf_undo_backing;
+static int vf_nundo_setup;
 
 /* ---- the cut parser: what PRS() guarantees about the context it returns ----
  * ASSUME: (PRS post-state) at most one of -p/-a, -n, -y; E2F_OPT_READONLY is set exactly when E2F_OPT_NO (-n) is; with -n: no -D (COMPRESS_DIRS), no -c (CHECKBLOCKS/WRITECHECK), no -l/-L file, DISCARD cleared; filesystem_name/program_name set */
@@ -142,8 +146,17 @@ static errcode_t PRS(int argc, char *argv[], e2fsck_t *ret_ctx)
 errcode_t ext2fs_open2(const char *name, const char *io_options, int flags, int superblock,
 		       unsigned int block_size, io_manager manager, ext2_filsys *ret_fs)
 {
-	(void) name; (void) io_options; (void) superblock; (void) block_size; (void) manager;
+	(void) name; (void) io_options; (void) superblock; (void) block_size;
 	vf_nopens++;
+	/* C12: which io manager is handed the device.  Every open fails here, so try_open_fs() never gets past its block-size probes
+	 * (plain unix manager, by design) while ctx->superblock is set without ctx->blocksize; every other call is the real open */
+	if (vf_ctx.superblock && !vf_ctx.blocksize)
+		PROP(manager == unix_io_manager, "block-size probe of try_open_fs uses the plain unix manager");
+	else if (vf_ctx.undo_file)
+		PROP(manager == undo_io_manager && vf_undo_backing == unix_io_manager,
+		     "e2fsck -z: every real open (first, backup-superblock retries, restart) goes through the undo io manager");
+	else
+		PROP(manager == unix_io_manager && vf_nundo_setup == 0, "without -z the undo manager is never set up nor used");
 	if (flags & EXT2_FLAG_RW) vf_nopens_rw++;
 	if (flags & EXT2_FLAG_EXCLUSIVE) vf_nopens_excl++;
 	if (vf_ctx.options & E2F_OPT_READONLY) {
@@ -215,7 +228,8 @@ errcode_t profile_get_boolean(profile_t profile, const char *name, const char *s
 }
 blk64_t get_backup_sb(e2fsck_t ctx, ext2_filsys fs, const char *name, io_manager manager)
 {
-	(void) fs; (void) name; (void) manager;
+	(void) fs; (void) name;
+	PROP(manager == (vf_ctx.undo_file ? undo_io_manager : unix_io_manager), "the backup-superblock search is given the manager of the run (undo with -z)");
 	if (IN.backup_found & 1) {
 		ctx->superblock = IN.backup_sb;
 		ctx->blocksize = IN.backup_bs;
@@ -225,7 +239,14 @@ blk64_t get_backup_sb(e2fsck_t ctx, ext2_filsys fs, const char *name, io_manager
 int check_plausibility(const char *device, int flags, int *ret_is_dev) { (void) device; (void) flags; (void) ret_is_dev; return 0; }
 const char *error_message(long code) { (void) code; return ""; }
 const char *e2p_feature2string(int compat, unsigned int mask) { (void) compat; (void) mask; return ""; }
-errcode_t set_undo_io_backing_manager(io_manager manager) { (void) manager; return (IN.setup_undo_fails & 1) ? ENOMEM : 0; }
+errcode_t set_undo_io_backing_manager(io_manager manager)
+{
+	if (IN.setup_undo_fails & 1)
+		return ENOMEM;
+	vf_undo_backing = manager;
+	vf_nundo_setup++;
+	return 0;
+}
 errcode_t set_undo_io_backup_file(char *file_name) { (void) file_name; return 0; }
 int vf_open(const char *path, int oflags, ...) { (void) path; (void) oflags; return 3; }
 int vf_close(int fd) { (void) fd; return 0; }
